@@ -1,0 +1,251 @@
+// Licensed to Apache Software Foundation (ASF) under one or more contributor
+// license agreements. See the NOTICE file distributed with
+// this work for additional information regarding copyright
+// ownership. Apache Software Foundation (ASF) licenses this file to you under
+// the Apache License, Version 2.0 (the "License"); you may
+// not use this file except in compliance with the License.
+// You may obtain a copy of the License at
+//
+//     http://www.apache.org/licenses/LICENSE-2.0
+//
+// Unless required by applicable law or agreed to in writing,
+// software distributed under the License is distributed on an
+// "AS IS" BASIS, WITHOUT WARRANTIES OR CONDITIONS OF ANY
+// KIND, either express or implied.  See the License for the
+// specific language governing permissions and limitations
+// under the License.
+
+//go:build verif
+
+// Contracts for the verification harness (comment-only; compiled only with -tags verif).
+// Syntax: see /verif/DESIGN.md §2.2.
+
+package aggregation
+
+//@ property C10
+//
+// Map/reduce algebra of the aggregation accumulators, verified for the instantiation N = int64 with exact
+// two's-complement semantics (the property claims exactness for integer fields only; float64 addition is not
+// associative and is excluded).
+//
+// A Map folds raw values with In; Partial exports its state; a Reduce folds partials with Combine. For every
+// function the state space with its fold operation is a commutative monoid whose identity is the Reset state, In(v) is
+// "combine with the partial of the single point v", and Val is the same function of the state on both sides. Hence
+// reducing the partials of any split of the points equals mapping all points in one place.
+//
+//@ lemma add_monoid(a int64, b int64, c int64)
+//@   mode bv
+//@   ensures (a + b) + c == a + (b + c)
+//@   ensures a + b == b + a
+//@   ensures a + 0 == a
+//@ lemma max_monoid(a int64, b int64, c int64)
+//@   mode bv
+//@   ensures max(max(a, b), c) == max(a, max(b, c))
+//@   ensures max(a, b) == max(b, a)
+//@   ensures max(MinInt64, a) == a
+//@   ensures max(a, a) == a
+//@ lemma min_monoid(a int64, b int64, c int64)
+//@   mode bv
+//@   ensures min(min(a, b), c) == min(a, min(b, c))
+//@   ensures min(a, b) == min(b, a)
+//@   ensures min(MaxInt64, a) == a
+//@   ensures min(a, a) == a
+//
+// the documented MEAN of a (sum, count) state
+//@ spec func meanOf(sum int64, count int64) int64 = ite(count == 0, 0, ite(sum / count < 1, 1, sum / count))
+//
+// ---- SUM ----
+//@ func sumFunc.In
+//@   mode bv
+//@   opt instantiate N int64
+//@   requires s != nil
+//@   modifies s.sum
+//@   ensures  s.sum == old(s.sum) + val
+//@ func sumFunc.Val
+//@   mode bv
+//@   opt instantiate N int64
+//@   ensures result == s.sum
+//@ func sumFunc.Partial
+//@   mode bv
+//@   opt instantiate N int64
+//@   ensures result.Value == s.sum
+//@ func sumFunc.Reset
+//@   mode bv
+//@   opt instantiate N int64
+//@   requires s != nil && s.zero == 0
+//@   modifies s.sum
+//@   ensures  s.sum == 0
+//@ func sumReduceFunc.Combine
+//@   mode bv
+//@   opt instantiate N int64
+//@   requires s != nil
+//@   modifies s.sum
+//@   ensures  s.sum == old(s.sum) + p.Value
+//@ func sumReduceFunc.Val
+//@   mode bv
+//@   opt instantiate N int64
+//@   ensures result == s.sum
+//@ func sumReduceFunc.Reset
+//@   mode bv
+//@   opt instantiate N int64
+//@   requires s != nil && s.zero == 0
+//@   modifies s.sum
+//@   ensures  s.sum == 0
+//
+// ---- COUNT ----
+//@ func countFunc.In
+//@   mode bv
+//@   opt instantiate N int64
+//@   requires c != nil
+//@   modifies c.count
+//@   ensures  c.count == old(c.count) + 1
+//@ func countFunc.Val
+//@   mode bv
+//@   opt instantiate N int64
+//@   ensures result == c.count
+//@ func countFunc.Partial
+//@   mode bv
+//@   opt instantiate N int64
+//@   ensures result.Value == c.count
+//@ func countFunc.Reset
+//@   mode bv
+//@   opt instantiate N int64
+//@   requires c != nil && c.zero == 0
+//@   modifies c.count
+//@   ensures  c.count == 0
+//@ func countReduceFunc.Combine
+//@   mode bv
+//@   opt instantiate N int64
+//@   requires c != nil
+//@   modifies c.sum
+//@   ensures  c.sum == old(c.sum) + p.Value
+//@ func countReduceFunc.Val
+//@   mode bv
+//@   opt instantiate N int64
+//@   ensures result == c.sum
+//@ func countReduceFunc.Reset
+//@   mode bv
+//@   opt instantiate N int64
+//@   requires c != nil && c.zero == 0
+//@   modifies c.sum
+//@   ensures  c.sum == 0
+//
+// ---- MAX ----
+//@ func maxFunc.In
+//@   mode bv
+//@   opt instantiate N int64
+//@   requires m != nil
+//@   modifies m.val
+//@   ensures  m.val == max(old(m.val), val)
+//@ func maxFunc.Val
+//@   mode bv
+//@   opt instantiate N int64
+//@   ensures result == m.val
+//@ func maxFunc.Partial
+//@   mode bv
+//@   opt instantiate N int64
+//@   ensures result.Value == m.val
+//@ func maxFunc.Reset
+//@   mode bv
+//@   opt instantiate N int64
+//@   requires m != nil && m.min == MinInt64
+//@   modifies m.val
+//@   ensures  m.val == MinInt64
+//@ func maxReduceFunc.Combine
+//@   mode bv
+//@   opt instantiate N int64
+//@   requires m != nil
+//@   modifies m.val
+//@   ensures  m.val == max(old(m.val), p.Value)
+//@ func maxReduceFunc.Val
+//@   mode bv
+//@   opt instantiate N int64
+//@   ensures result == m.val
+//@ func maxReduceFunc.Reset
+//@   mode bv
+//@   opt instantiate N int64
+//@   requires m != nil && m.min == MinInt64
+//@   modifies m.val
+//@   ensures  m.val == MinInt64
+//
+// ---- MIN ----
+//@ func minFunc.In
+//@   mode bv
+//@   opt instantiate N int64
+//@   requires m != nil
+//@   modifies m.val
+//@   ensures  m.val == min(old(m.val), val)
+//@ func minFunc.Val
+//@   mode bv
+//@   opt instantiate N int64
+//@   ensures result == m.val
+//@ func minFunc.Partial
+//@   mode bv
+//@   opt instantiate N int64
+//@   ensures result.Value == m.val
+//@ func minFunc.Reset
+//@   mode bv
+//@   opt instantiate N int64
+//@   requires m != nil && m.max == MaxInt64
+//@   modifies m.val
+//@   ensures  m.val == MaxInt64
+//@ func minReduceFunc.Combine
+//@   mode bv
+//@   opt instantiate N int64
+//@   requires m != nil && m.max == MaxInt64
+//@   modifies m.val
+//@   ensures  m.val == min(old(m.val), p.Value)
+//@ func minReduceFunc.Val
+//@   mode bv
+//@   opt instantiate N int64
+//@   ensures result == m.val
+//@ func minReduceFunc.Reset
+//@   mode bv
+//@   opt instantiate N int64
+//@   requires m != nil && m.max == MaxInt64
+//@   modifies m.val
+//@   ensures  m.val == MaxInt64
+//
+// ---- MEAN ----
+//@ func meanFunc.In
+//@   mode bv
+//@   opt instantiate N int64
+//@   requires m != nil
+//@   modifies m.sum
+//@   modifies m.count
+//@   ensures  m.sum == old(m.sum) + val && m.count == old(m.count) + 1
+//@ func meanFunc.Val
+//@   mode bv
+//@   opt instantiate N int64
+//@   requires m.zero == 0
+//@   ensures  result == meanOf(m.sum, m.count)
+//@ func meanFunc.Partial
+//@   mode bv
+//@   opt instantiate N int64
+//@   ensures result.Value == m.sum && result.Count == m.count
+//@ func meanFunc.Reset
+//@   mode bv
+//@   opt instantiate N int64
+//@   requires m != nil && m.zero == 0
+//@   modifies m.sum
+//@   modifies m.count
+//@   ensures  m.sum == 0 && m.count == 0
+//@ func meanReduceFunc.Combine
+//@   mode bv
+//@   opt instantiate N int64
+//@   requires m != nil
+//@   modifies m.sum
+//@   modifies m.count
+//@   ensures  m.sum == old(m.sum) + p.Value && m.count == old(m.count) + p.Count
+//@ func meanReduceFunc.Val
+//@   mode bv
+//@   opt instantiate N int64
+//@   requires m.zero == 0
+//@   ensures  result == meanOf(m.sum, m.count)
+//@ func meanReduceFunc.Reset
+//@   mode bv
+//@   opt instantiate N int64
+//@   requires m != nil && m.zero == 0
+//@   modifies m.sum
+//@   modifies m.count
+//@   ensures  m.sum == 0 && m.count == 0
